@@ -48,6 +48,7 @@ type rewriteOpts struct {
 	dropZero       bool // tolerance (ii): scalar zero values of optional / required+(readOnly|default|non-nullable) properties
 	dropZeroAll    bool // C05 normaliser: optional zero values of any kind (incl. empty containers, null)
 	strict         bool // --strict-additional-properties: (i) is off where additionalProperties is false
+	nullAsEmpty    bool // C03/C04: a nil slice and an empty slice are the same Go value for a handler: null under an array schema reads []
 	nullArrays     bool // C05: "an absent array may be rendered as null": a null under an array schema is dropped
 }
 
@@ -93,6 +94,9 @@ func declaredProps(s J, root J) (props map[string]J, required map[string]bool, a
 
 func rewriteDoc(s J, root J, doc interface{}, o rewriteOpts) interface{} {
 	s = resolveRef(s, root)
+	if o.nullAsEmpty && doc == nil && s["type"] == "array" {
+		return []interface{}{}
+	}
 	switch d := doc.(type) {
 	case map[string]interface{}:
 		props, required, addl, addlAllowed, addlFalse := declaredProps(s, root)
